@@ -1,16 +1,57 @@
 ------------------------------ MODULE MC_Core ------------------------------
-(* Scenario "Core": empty pool, constructors, clone/drop and the mutators,
-   small alphabets that straddle the code's case splits.                    *)
+(* Alphabets and seeds for the scenarios (MC_*.cfg).  Texts are UTF-8 byte
+   sequences chosen to straddle the code's case splits: 15/16/17 bytes,
+   1/2/3/4-byte characters, every class of final byte of a full inline text. *)
 EXTENDS MC
-A15 == <<97,98,99,100,101,102,103,104,105,106,107,108,109,110,111>>     \* 15 ASCII bytes
-cStrS3 == { <<97>>, <<240,157,132,158>>, A15 \o <<112,113>> }           \* "a", U+1D11E, 17 bytes
-cStrS5 == cStrS3 \cup { <<195,169>>, A15 }                               \* + "é", 15 bytes
-cStatics == << <<83,116,97,116,105,99,32,116,101,120,116,32,49,56,32,98,226,130,172,33>> >>  \* "Static text 18 b€!" (20 bytes)
-cChars == { <<226,130,172>> }
-cRetain == { <<0,1,0,1,0,1,0,1,0,1,0,1,0,1,0,1,0,1,0,1>> }
-cItems == { << <<98>>, <<195,169>> >> }
+A15 == <<97,98,99,100,101,102,103,104,105,106,107,108,109,110,111>>     \* "abcdefghijklmno"
+A17 == A15 \o <<112,113>>                                               \* 17 ASCII bytes
+G4  == <<240,157,132,158>>                                              \* U+1D11E, 4 bytes
+E2  == <<195,169>>                                                      \* U+00E9, 2 bytes
+U3  == <<226,130,172>>                                                  \* U+20AC, 3 bytes
+M16 == <<97,98,99,100,101,102,103,104,105,106,107,108,109>> \o U3       \* 16 bytes ending in a 3-byte char
+M22 == <<97>> \o E2 \o U3 \o G4 \o <<98,99>> \o G4 \o U3 \o E2 \o <<100>> \* 22 bytes, every width
+cStrS3 == { <<97>>, G4, A17 }
+cStrS5 == cStrS3 \cup { E2, A15 }
+cStrS2 == { <<97>>, A17 }
+cStrMix == { <<97>>, U3, M22 }
+\* static texts: 20 bytes with a 3-byte char near the end; 40 bytes; 17 bytes
+St20 == <<83,116,97,116,105,99,32,116,101,120,116,32,49,56,32,98,226,130,172,33>>
+St40 == St20 \o <<32,97,110,100,32,115,111,109,101,32,109,111,114,101,32,195,169,33,33,33>>
+cStatics == << St20 >>
+cStatics2 == << St20, St40 >>
+cChars == { U3 }
+cCharsAll == { <<97>>, E2, U3, G4 }
+cRetain == { <<0,1,0,1,0,1,0,1,0,1,0,1,0,1,0,1,0,1,0,1,0,1>> }
+cRetainP == cRetain \cup { <<1,1,1,1,1,1,1,1,1,1,1,1,1,1,1,1,1,1,1,1,1,1>>, <<0>>, <<1,0,2>>, <<2>>, <<0,0,0,1,2>> }
+cItems == { << <<98>>, E2 >> }
+cItems2 == { << <<98>>, E2 >>, << G4, G4, G4, G4, <<120>> >>, <<>> }
 cOpsCore == {"new","from_str","from_static","with_capacity","clone","drop","reserve","shrink_to",
              "push_str","pop","clear","truncate","remove","insert_str"}
 cOpsAll == cOpsCore \cup {"from_char","clone_from","retain","extend","collect"}
+cOpsMut == {"clone","drop","reserve","shrink_to","push_str","pop","clear","truncate","remove","insert_str","clone_from","retain","extend"}
+cOpsIdx == {"truncate","remove","insert_str"}
 cSeedsEmpty == { <<>> }
+cCapsSizes == {0, 1, 15, 16, 17, 30, BIG, TOOLONG, OVERFLOW}
+cHintsSizes == {0, 20, BIG, TOOLONG, OVERFLOW}
+
+\* ---- seeds: storage states that take many steps to reach, given as ordinary paths
+o(op, h, g, n, s) == OpRec(op, "", 0, h, g, n, 0, s, <<>>, {})
+SeedHeapUnique  == << o("from_str", 1, 0, 0, A17) >>
+SeedHeapShared  == << o("from_str", 1, 0, 0, A17), o("clone", 2, 1, 0, <<>>) >>
+SeedHeapSharedT == << o("from_str", 1, 0, 0, M22), o("clone", 2, 1, 0, <<>>), o("truncate", 2, 0, 6, <<>>) >>   \* sibling shorter
+SeedHeapOver    == << o("with_capacity", 1, 0, 40, <<>>), o("push_str", 1, 0, 0, M22) >>                        \* cap 40, len 22
+SeedHeapOverSh  == SeedHeapOver \o << o("clone", 2, 1, 0, <<>>) >>
+SeedHeapShort   == << o("from_str", 1, 0, 0, A17), o("truncate", 1, 0, 3, <<>>) >>                              \* heap, len 3
+SeedStatic      == << o("from_static", 1, 1, 0, <<>>) >>
+SeedStaticT     == << o("from_static", 1, 1, 0, <<>>), o("truncate", 1, 0, 4, <<>>) >>                          \* static below 16
+SeedStaticSh    == << o("from_static", 1, 1, 0, <<>>), o("clone", 2, 1, 0, <<>>) >>
+SeedInline15    == << o("from_str", 1, 0, 0, A15) >>
+SeedInline16    == << o("from_str", 1, 0, 0, A15 \o <<112>>) >>
+SeedInline16m   == << o("from_str", 1, 0, 0, M16) >>
+SeedInlineMix   == << o("from_str", 1, 0, 0, <<97>> \o E2 \o U3 \o G4) >>
+cSeedsAll == { SeedHeapUnique, SeedHeapShared, SeedHeapSharedT, SeedHeapOver, SeedHeapOverSh, SeedHeapShort, SeedStatic,
+               SeedStaticT, SeedStaticSh, SeedInline15, SeedInline16, SeedInline16m, SeedInlineMix, <<>> }
+cSeedsShared == { SeedHeapShared, SeedHeapSharedT, SeedHeapOverSh, SeedStaticSh }
+cSeedsIdx == { SeedHeapSharedT, SeedHeapOver, SeedStatic, SeedInline16m, SeedInlineMix,
+               << o("from_str", 1, 0, 0, M22) >>, << o("from_static", 1, 1, 0, <<>>), o("clone", 2, 1, 0, <<>>) >> }
 =============================================================================
